@@ -20,16 +20,27 @@ theorem C17_matrix :
     Gen.Vocab.wrappers.all (fun w => kinds.all fun k => accepts w.2.2.2 k == documented w.1 k) = true := by
   decide +kernel
 
+/-- the published wrappers of the documented vocabulary (interface module, name) -/
+def publishedWrappers : List (String × String) :=
+  [("action", "set_loc"), ("action", "move"), ("action", "turn_on"), ("action", "turn_off"), ("schedule", "device_fn"), ("schedule", "reverse"), ("schedule", "parallel"), ("schedule", "auto"), ("gate", "top_hat_cz"), ("gate", "local_r"), ("gate", "local_rz"), ("gate", "global_r"), ("gate", "global_rz"), ("init", "fill"), ("measure", "measure"), ("spec", "get_static_trap"), ("spec", "get_special_grid"), ("spec", "get_int_constant"), ("spec", "get_float_constant"), ("filled", "vacate"), ("filled", "fill"), ("filled", "get_parent"), ("filled", "shift"), ("filled", "scale"), ("filled", "repeat"), ("atom", "new"), ("atom", "move"), ("atom", "move_next_to"), ("atom", "reset_position"), ("atom", "measure"), ("grid", "from_positions"), ("grid", "shift"), ("grid", "scale"), ("grid", "repeat"), ("grid", "sub_grid"), ("grid", "shape"), ("grid", "get"), ("grid", "get_xpos"), ("grid", "get_ypos"), ("grid", "positions"), ("grid", "x_bounds"), ("grid", "y_bounds"), ("grid", "new")]
+
+/-- every published wrapper is (still) a lowering wrapper found in the regenerated table: the matrix above quantifies over
+all of them -/
+theorem C17_published_present :
+    publishedWrappers.all (fun p => Gen.Vocab.wrappers.any fun w => w.1 == p.1 && w.2.1 == p.2) = true := by
+  decide +kernel
+
 /-- the three groups exist -/
 theorem C17_groups_exist : kinds.all (fun k => (Gen.Vocab.groups.lookup k).isSome) = true := by
   decide +kernel
 
 /-- the tracer refuses anything that is not a tweezer kernel or a closure (observed on one method of each kind: a
-tweezer kernel, a move kernel, an atom-level kernel, a plain kirin function, a closure that captures a value and closures
+tweezer kernel, a move kernel, an atom-level kernel, a plain kirin function, a function of another dialect group that
+contains the action dialect, a closure that captures a value and closures
 that capture nothing, folded and unfolded) -/
 theorem C17_tracer_guard :
     Gen.Vocab.tracerGuard = [("tweezer", true), ("move", false), ("kernel", false), ("plain_function", false),
-      ("closure_capturing", true), ("closure_capture_free", true), ("closure_capture_free_nofold", true)] := by decide
+      ("custom_group_with_action", false), ("closure_capturing", true), ("closure_capture_free", true), ("closure_capture_free_nofold", true)] := by decide
 
 /-- in words, for membership: a wrapper listed in the table is accepted exactly where documented -/
 theorem C17_matrix_mem (w : String × String × String × String) (hw : w ∈ Gen.Vocab.wrappers)
